@@ -940,6 +940,11 @@ fn match_ty<I: Interner>(
         | TyKind::Tuple(0, _) => {
             // These have no substitutions, so they are trivially WF
             builder.push_fact(WellFormed::Ty(ty.clone()));
+            if !matches!(ty.kind(interner), TyKind::Foreign(_)) {
+                // Built-in types mention no type parameter, so for the
+                // orphan rules they are fully visible (they are not local).
+                builder.push_fact(DomainGoal::IsFullyVisible(ty.clone()));
+            }
         }
         TyKind::Raw(mutbl, _) => {
             // forall<T> WF(*const T) :- WF(T);
@@ -1066,6 +1071,15 @@ fn match_ty<I: Interner>(
                                 subst.assert_ty_ref(interner).clone(),
                             ))
                         })),
+                );
+                // Tuples are never local; for the orphan rules a tuple is
+                // fully visible when all of its elements are.
+                let tuple_ty = TyKind::Tuple(*len, substs.clone()).intern(interner);
+                builder.push_clause(
+                    DomainGoal::IsFullyVisible(tuple_ty),
+                    substs.iter(interner).map(|subst| {
+                        DomainGoal::IsFullyVisible(subst.assert_ty_ref(interner).clone())
+                    }),
                 );
             });
         }
